@@ -32,7 +32,7 @@ COMPONENTS = {"real": ["pyjelly serializers and parsers of both integrations, mo
               "stub": ["scheduler: which generator / thread runs next (tape)", "neighbour workloads"]}
 ASSUMPTIONS = ["pre-emption only at Python line boundaries inside pyjelly (not inside C calls of protobuf / io)",
                "hash-seed clause applied to explicit sequences only (rdflib containers iterate in hash order by design)",
-               "the rdflib GraphStream-from-generator path regroups through a set (known finding)"]
+               "rdflib Graph/Dataset containers iterate in hash order by design, so only explicit sequences are used"]
 PROBES = ["guessed_options_workloads", "namespace_workloads", "nested_steps", "coop_runs", "thread_runs", "subproc_runs", "shared_options", "neighbour_abandoned", "neighbour_failed",
           "neighbour_unused", "thread_switches", "parse_workloads", "ser_workloads", "rdflib_workloads"]
 SHRINK_LISTS = ["workloads"]
@@ -41,8 +41,6 @@ SHRINK_LISTS = ["workloads"]
 def gen_workload(rng, allow_rdflib_graphs_gen=False):
     integration = rng.choice(["generic", "generic", "rdflib"])
     physical = rng.choice(["TRIPLES", "QUADS", "GRAPHS"])
-    if integration == "rdflib" and physical == "GRAPHS" and not allow_rdflib_graphs_gen:
-        physical = "QUADS"      # rdflib GraphStream + generator regroups through a set: known finding, kept out
     stmts, flags, sizes, _ = c01.gen_workload(rng, physical, rdflib_safe=integration == "rdflib", max_n=12)
     mp, mn, md = c01.fit_tables(rng, stmts, [], sizes, physical)
     if md == 0 and W.has_datatypes(stmts):
